@@ -295,7 +295,8 @@ def repo_update(sl):
     core.note("expected", (target, via))
     core.trace("n_calls", len(g.calls))
     if target is None:
-        observe("nothing qualifies -> SystemSetupError", how == "raise" and isinstance(err, exceptions.SystemSetupError))
+        # (for an unknown version the statement only asks for "an error": any Rally error will do, a raw TypeError will not)
+        observe("nothing qualifies -> SystemSetupError", how == "raise" and isinstance(err, exceptions.SystemSetupError if V is not None else exceptions.RallyError))
         observe("nothing checked out", not checkouts)
     else:
         failed = any(core.ctx().vars.get("checkout_fails_%d" % (i + 1), (None, False))[1] is True for i in range(len(g.calls))) \
